@@ -442,6 +442,8 @@ def _inject_body(body, spec):
                     j += 1
                 cl_pos.append((mo.end(1), (k, j)))
         for n, c in spec.closures.items():
+            if len(cl_pos) == 0:
+                continue    # the function has no closure at all any more: nothing to annotate (proof only)
             if n >= len(cl_pos):
                 raise UnitError('lost anchor: %s closure %d (function has %d closures)' % (spec.id, n, len(cl_pos)))
             ann = ' -> (verif_r: %s)\n            ensures\n' % (c['returns'] or '_')
@@ -654,12 +656,42 @@ def _copy_with_false(spec):
     return s
 
 
+def _auto_consts(repo, spec, text, known):
+    """Constants of the item's own source file that the item mentions and the unit does not define yet:
+    they are extracted too (a changed function may start using a constant declared next to it)."""
+    extra = []
+    try:
+        src = open(os.path.join(repo, spec.path)).read()
+    except OSError:
+        return extra
+    m, _ = mask(text)
+    for name in sorted(set(re.findall(r'\b[A-Z][A-Z0-9_]{2,}\b', m))):
+        if name in known:
+            continue
+        try:
+            it = cut_item(spec.path, src, 'const ' + name)
+        except ScanError:
+            continue
+        known.add(name)
+        t, _ = rewrite.apply_all(it.text, [])
+        if not t.lstrip().startswith('pub'):
+            t = 'pub ' + t.lstrip()
+        extra.append((name, t, it.line))
+    return extra
+
+
 def assemble(template, repo, specs_dir, canary=None):
     """Returns (text, meta). canary: None or a canary dict from parse_template."""
     parts, canaries = parse_template(template, specs_dir)
     out = []
     items = []
     ids = set()
+    known_consts = set()
+    for kind, val in parts:
+        if kind == 'text':
+            known_consts.update(re.findall(r'\bconst\s+([A-Z][A-Z0-9_]*)\b', val))
+        elif re.match(r'^(const|static)\s+(\w+)', val.selector.split('::')[-1].strip()):
+            known_consts.add(re.match(r'^(const|static)\s+(\w+)', val.selector.split('::')[-1].strip()).group(2))
     for kind, val in parts:
         if kind == 'text':
             out.append(val)
@@ -682,6 +714,10 @@ def assemble(template, repo, specs_dir, canary=None):
         meta['template'] = spec.tmpl
         items.append(meta)
         ind = getattr(spec, 'indent', '')
+        if meta['kind'] == 'fn' and not spec.from_other_unit:
+            for cname, ctext, cline in _auto_consts(repo, spec, text, known_consts):
+                out.append(ind + '/*@auto-extracted const %s (%s:%d)@*/ ' % (cname, spec.path, cline) + ctext)
+                meta.setdefault('auto_consts', []).append(cname)
         out.append('\n'.join(ind + l if l.strip() else l for l in text.split('\n')))
     if canary and canary['item'] not in ids:
         raise UnitError('canary %s names unknown item %s' % (canary['id'], canary['item']))
